@@ -30,6 +30,10 @@ type Monitor struct {
 	Domain map[*ssa.Function]bool
 	// monitor-relative locations stored somewhere outside constructors
 	Mutable map[string]bool
+	// Responsible[f]: locations f is the innermost monitor-aware writer of
+	Responsible map[*ssa.Function]map[string]bool
+	// Role[c]: the side of cond c = its waiters plus every other writer of their locations
+	Role map[string]map[*ssa.Function]bool
 }
 
 // RelTo returns the monitor-relative location ("pseq.cursor") of a path that
@@ -109,7 +113,7 @@ func buildMonitor(p *core.Program, lk *Analysis, eff *effects.Analysis, named *t
 		Waits: map[string][]*WaitLoop{}, Broadcasts: map[string][]CondOp{},
 		Waiters: map[string]map[*ssa.Function]bool{}, Pred: map[string]map[string]bool{},
 		Own: map[string]map[string]bool{}, Foreign: map[string]map[string]bool{},
-		Domain: map[*ssa.Function]bool{}}
+		Domain: map[*ssa.Function]bool{}, Role: map[string]map[*ssa.Function]bool{}}
 	for _, c := range conds {
 		m.Waiters[c] = map[*ssa.Function]bool{}
 		m.Pred[c] = map[string]bool{}
@@ -168,18 +172,51 @@ func buildMonitor(p *core.Program, lk *Analysis, eff *effects.Analysis, named *t
 				}
 			}
 		}
-		// Own(c): locations stored by W*(c)
-		for fn := range m.Waiters[c] {
-			inf := eff.Funcs[fn]
-			if inf == nil {
+	}
+	// Responsible[f]: monitor-relative locations f stores itself or through a callee
+	// in whose frame the location is not monitor-relative (a setter on a sub-object).
+	m.Responsible = map[*ssa.Function]map[string]bool{}
+	for _, fn := range p.Funcs {
+		inf := eff.Funcs[fn]
+		if inf == nil {
+			continue
+		}
+		for _, ac := range inf.Accesses {
+			if !ac.Write || ac.Fresh {
 				continue
 			}
-			for _, ac := range inf.Accesses {
-				if !ac.Write || !rootIsMonitorParam(ac.Path, named) {
-					continue
-				}
-				if rel, ok := RelTo(ac.Path, named); ok {
-					m.Own[c][rel] = true
+			rel, ok := RelTo(ac.Path, named)
+			if !ok {
+				continue
+			}
+			if !ac.Direct && ac.Via != nil && calleeStoresRel(eff, ac.Via, named, rel) {
+				continue
+			}
+			if m.Responsible[fn] == nil {
+				m.Responsible[fn] = map[string]bool{}
+			}
+			m.Responsible[fn][rel] = true
+		}
+	}
+	for _, c := range conds {
+		// Own(c): locations responsibly stored by W*(c); every other responsible writer
+		// of such a location belongs to the same side (single producer / single consumer).
+		for fn := range m.Waiters[c] {
+			for rel := range m.Responsible[fn] {
+				m.Own[c][rel] = true
+			}
+		}
+		m.Role[c] = map[*ssa.Function]bool{}
+		for fn := range m.Waiters[c] {
+			m.Role[c][fn] = true
+		}
+		for fn, locs := range m.Responsible {
+			if !m.Domain[fn] {
+				continue
+			}
+			for rel := range locs {
+				if m.Own[c][rel] {
+					m.Role[c][fn] = true
 				}
 			}
 		}
@@ -218,4 +255,21 @@ func SortedKeys(m map[string]bool) []string {
 	}
 	sort.Strings(out)
 	return out
+}
+
+// calleeStoresRel: the callee's own summary already names the location relative to the monitor.
+func calleeStoresRel(eff *effects.Analysis, callee *ssa.Function, m *types.Named, rel string) bool {
+	inf := eff.Funcs[callee]
+	if inf == nil {
+		return false
+	}
+	for _, ac := range inf.Accesses {
+		if !ac.Write {
+			continue
+		}
+		if r, ok := RelTo(ac.Path, m); ok && r == rel {
+			return true
+		}
+	}
+	return false
 }
